@@ -103,7 +103,16 @@ func verifyOne(P *Program, S *Specs, E *Effects, fn *ssa.Function, o RunOpts) (r
 			}
 		}
 	}
-	if nret > 0 && dead == nret && res.Vacuous == "" {
+	anyFail := false
+	for _, ob := range g.obs {
+		if ob.Status != "unsat" {
+			anyFail = true // a failed obligation is assumed afterwards and makes later code unreachable
+		}
+	}
+	if anyFail {
+		res.Vacuous = ""
+		res.DeadReturns = nil
+	} else if nret > 0 && dead == nret && res.Vacuous == "" {
 		res.Vacuous = "no return of " + g.name + " is reachable under the assumed contracts (contradictory assumptions)"
 	}
 	for a := range g.assumptions {
@@ -191,6 +200,9 @@ func main() {
 		E := NewEffects(P, S)
 		var fns []*ssa.Function
 		for _, f := range P.AllFuncs {
+			if c := S.Contracts[fnName(f)]; c != nil && c.Trusted {
+				continue
+			}
 			if re.MatchString(fnName(f)) {
 				fns = append(fns, f)
 			}
